@@ -240,12 +240,17 @@ def replay_case(args):
         return ob[view].shape == exp.shape and bool((ob[view] == exp).all())
 
     def pil_view_check(op, n, ob, snap):
-        """the PIL view (aspil(), what Image.save writes for png/jpg) must show the same rows as the array view"""
-        if not rows_ok(ob, snap["pil"], "ident_pil"):
+        """ViewsAgree on the real object: the PIL view (aspil(), what Image.save writes for png/jpg) shows the same rows
+        as the array view (whether those are the right rows is judged separately, against the spec's row order)."""
+        if ob["ident_pil"] is None:
+            return
+        if snap["pil"] != snap["rows"]:
+            res.append(("M", "spec", "the spec predicts disagreeing views for %r" % (case,), case))
+        if ob["ident_pil"].shape != ob["ident"].shape or not bool((ob["ident_pil"] == ob["ident"]).all()):
             bad("V", "flip_parity", "rows-aspil",
-                "after %s (call %d) of a %s image the rows seen through aspil() are %s (original row numbers), specified %s; asarray() shows %s"
-                % (op, n, backing, stored_rows(ob["ident_pil"]) if ob["ident_pil"].shape[:2] == (h, w) else ob["ident_pil"].shape,
-                   snap["pil"], stored_rows(ob["ident"])))
+                "after %s (call %d) of a %s image (before the call: %s) aspil() shows rows %s (original row numbers) but asarray() shows %s; specified for both: %s"
+                % (op, n, backing, touch, stored_rows(ob["ident_pil"]) if ob["ident_pil"].shape[:2] == (h, w) else ob["ident_pil"].shape,
+                   stored_rows(ob["ident"]), snap["rows"]))
 
     def sky_follows_rows(ob, ob0, rows):
         """pixel stored in array row y is original row rows[y]: its sky position must be the original one."""
